@@ -456,4 +456,222 @@ theorem agg_accepts_non_checkpoint_target :
   ⟨{ aggOk with targetIsCkpt := false }, ⟨by decide, by decide, by decide, by decide, by decide, by decide⟩,
     by decide +kernel, by decide +kernel⟩
 
+/-! ### voluntary_exit -/
+
+/-- `activation_epoch + SHARD_COMMITTEE_PERIOD` fits 64 bits (an active validator's activation epoch is at most the
+current epoch; the period is a small constant) -/
+structure WFExit (i : ExitIn) : Prop where
+  shard : i.activation.toNat + i.shardPeriod.toNat < 2 ^ 64
+
+/-- `phase0.ValidateVoluntaryExit` succeeds exactly on the conditions of `process_voluntary_exit` -/
+theorem exitValid_iff (i : ExitIn) (h : WFExit i) : exitValid i = true ↔
+    (i.vindex.toNat < i.nVals.toNat ∧ i.activation.toNat ≤ i.curEpoch.toNat ∧ i.curEpoch.toNat < i.valExit.toNat ∧
+      i.valExit.toNat = 2 ^ 64 - 1 ∧ i.exitEpoch.toNat ≤ i.curEpoch.toNat ∧
+      i.activation.toNat + i.shardPeriod.toNat ≤ i.curEpoch.toNat ∧ i.sig = true) := by
+  obtain ⟨hsh⟩ := h
+  have hmod : (i.activation.toNat + i.shardPeriod.toNat) % 2 ^ 64 = i.activation.toNat + i.shardPeriod.toNat :=
+    Nat.mod_eq_of_lt hsh
+  have hfar : FAR_FUTURE_EPOCH.toNat = 2 ^ 64 - 1 := by decide
+  fun_cases exitValid i
+  all_goals (try gossip_norm)
+  all_goals (try simp only [UInt64.toNat_add, hmod, hfar] at *)
+  all_goals (first | (simp_all; done) | (simp_all; omega))
+
+theorem exit_accept_iff_all_conditions (i : ExitIn) (h : WFExit i) :
+    (validateExit i).verdict = .ACCEPT ↔ allHold (Spec.exitConds i) = true := by
+  have hv := exitValid_iff i h
+  fun_cases validateExit i
+  all_goals (try simp only [Spec.exitConds, Spec.isActive, Spec.FAR] at *)
+  all_goals (try gossip_norm)
+  all_goals (first | (simp_all; done) | (simp_all; omega) | (cases hx : exitValid i <;> simp_all <;> omega) | (cases hs : i.sig <;> cases hx : exitValid i <;> simp_all <;> intros <;> simp_all <;> omega))
+
+theorem exit_timing_failures_ignore (i : ExitIn) (h : WFExit i) :
+    allHold (Spec.exitConds i) = false → onlyTimingFails (Spec.exitConds i) = true →
+    (validateExit i).verdict = .IGNORE := by
+  have hv := exitValid_iff i h
+  fun_cases validateExit i
+  all_goals (try simp only [Spec.exitConds, Spec.isActive, Spec.FAR] at *)
+  all_goals (try gossip_norm)
+  all_goals (first | (simp_all; done) | (simp_all; omega) | (cases hx : exitValid i <;> simp_all <;> omega) | (cases hs : i.sig <;> cases hx : exitValid i <;> simp_all <;> intros <;> simp_all <;> omega))
+
+theorem exit_marks_only_on_accept (i : ExitIn) :
+    (validateExit i).marks ≠ [] → (validateExit i).verdict = .ACCEPT := by
+  fun_cases validateExit i
+  all_goals (simp_all [ign, rej, acc])
+
+theorem exit_violated_never_accept (i : ExitIn) (h : WFExit i) (c : Cond) (hc : c ∈ Spec.exitConds i)
+    (hv : c.holds = false) : (validateExit i).verdict ≠ .ACCEPT :=
+  never_accept_of_iff (exit_accept_iff_all_conditions i h) hc hv
+
+def exitOk : ExitIn :=
+  { vindex := 5, exitEpoch := 3, seen := false, headOk := true, nVals := 64, curEpoch := 3, activation := 0,
+    valExit := 18446744073709551615, shardPeriod := 2, sig := true }
+example : WFExit exitOk := ⟨by decide⟩
+example : (validateExit exitOk).verdict = .ACCEPT ∧ allHold (Spec.exitConds exitOk) = true := by decide
+
+/-! ### proposer_slashing -/
+
+theorem isSlashable_eq_spec (sl : Bool) (a w e : UInt64) :
+    isSlashable sl a w e = Spec.isSlashableValidator sl a.toNat w.toNat e.toNat := by
+  unfold isSlashable Spec.isSlashableValidator
+  cases sl <;> simp [UInt64.lt_iff_toNat_lt, UInt64.le_iff_toNat_le]
+  by_cases h1 : e.toNat < a.toNat <;> by_cases h2 : w.toNat ≤ e.toNat <;> simp [h1, h2] <;> omega
+
+theorem pslashShapeOk_iff (i : PSlashIn) : pslashShapeOk i = true ↔
+    (i.slot1.toNat = i.slot2.toNat ∧ i.prop1.toNat = i.prop2.toNat ∧ i.headersEqual = false) := by
+  fun_cases pslashShapeOk i
+  all_goals (try gossip_norm)
+  all_goals (simp_all)
+
+theorem pslashValid_iff (i : PSlashIn) : pslashValid i = true ↔
+    (pslashShapeOk i = true ∧ i.prop1.toNat < i.nVals.toNat ∧
+      Spec.isSlashableValidator i.slashed i.activation.toNat i.withdrawable.toNat i.curEpoch.toNat = true ∧
+      i.sig1 = true ∧ i.sig2 = true) := by
+  have hs := isSlashable_eq_spec i.slashed i.activation i.withdrawable i.curEpoch
+  fun_cases pslashValid i
+  all_goals (try gossip_norm)
+  all_goals (first | (simp_all; done) | (simp_all; omega) | (simp_all; intros; omega))
+
+theorem pslash_accept_iff_all_conditions (i : PSlashIn) :
+    (validateProposerSlashing i).verdict = .ACCEPT ↔ allHold (Spec.pslashConds i) = true := by
+  have hv := pslashValid_iff i
+  have hsh := pslashShapeOk_iff i
+  fun_cases validateProposerSlashing i
+  all_goals (try simp only [Spec.pslashConds] at *)
+  all_goals (try gossip_norm)
+  all_goals (first | (simp_all; done) | (simp_all; omega) | (cases hx : pslashValid i <;> simp_all <;> omega) | (cases hx : pslashValid i <;> simp_all <;> intros <;> simp_all <;> omega) | (cases h1 : i.sig1 <;> cases h2 : i.sig2 <;> cases h3 : Spec.isSlashableValidator i.slashed i.activation.toNat i.withdrawable.toNat i.curEpoch.toNat <;> simp_all <;> omega))
+
+theorem pslash_violated_never_accept (i : PSlashIn) (c : Cond) (hc : c ∈ Spec.pslashConds i)
+    (hv : c.holds = false) : (validateProposerSlashing i).verdict ≠ .ACCEPT :=
+  never_accept_of_iff (pslash_accept_iff_all_conditions i) hc hv
+
+theorem pslash_timing_failures_ignore (i : PSlashIn) :
+    allHold (Spec.pslashConds i) = false → onlyTimingFails (Spec.pslashConds i) = true →
+    (validateProposerSlashing i).verdict = .IGNORE := by
+  have hv := pslashValid_iff i
+  have hsh := pslashShapeOk_iff i
+  fun_cases validateProposerSlashing i
+  all_goals (try simp only [Spec.pslashConds] at *)
+  all_goals (try gossip_norm)
+  all_goals (first | (simp_all; done) | (simp_all; omega) | (cases hx : pslashValid i <;> simp_all <;> omega) | (cases hx : pslashValid i <;> simp_all <;> intros <;> simp_all <;> omega) | (cases h1 : i.sig1 <;> cases h2 : i.sig2 <;> cases h3 : Spec.isSlashableValidator i.slashed i.activation.toNat i.withdrawable.toNat i.curEpoch.toNat <;> simp_all <;> omega))
+
+theorem pslash_marks_only_on_accept (i : PSlashIn) :
+    (validateProposerSlashing i).marks ≠ [] → (validateProposerSlashing i).verdict = .ACCEPT := by
+  fun_cases validateProposerSlashing i
+  all_goals (simp_all [ign, rej, acc])
+
+def pslashOk : PSlashIn :=
+  { spe := 8, slot1 := 20, slot2 := 20, prop1 := 7, prop2 := 7, headersEqual := false, seen := false, headOk := true,
+    nVals := 64, curEpoch := 3, slashed := false, activation := 0, withdrawable := 18446744073709551615,
+    sig1 := true, sig2 := true }
+example : (validateProposerSlashing pslashOk).verdict = .ACCEPT ∧ allHold (Spec.pslashConds pslashOk) = true := by decide
+
+/-! ### sync_committee_{subnet_id} -/
+
+theorem syncCommitteeForSlot_eq_spec {α} (spe epp slot : UInt64) (a b : α) (h : slot.toNat + 1 < 2 ^ 64) :
+    syncCommitteeForSlot spe epp slot a b = Spec.syncCommitteeFor spe.toNat epp.toNat slot.toNat a b := by
+  unfold syncCommitteeForSlot Spec.syncCommitteeFor epochOf
+  have h1 : (slot + 1).toNat = slot.toNat + 1 := by
+    rw [UInt64.toNat_add]; exact Nat.mod_eq_of_lt h
+  rw [beq_toNat]
+  simp only [UInt64.toNat_div, h1]
+
+/-- * `slot`     `slot + 1` fits 64 bits
+* `members`  sync committee members are validators of the registry
+* `len`      the committees' lengths fit 64 bits -/
+structure WFSyncMsg (i : SyncMsgIn) : Prop where
+  slot : i.slot.toNat + 1 < 2 ^ 64
+  curMembers : ∀ v ∈ i.curCommittee, v.toNat < i.nVals.toNat
+  nextMembers : ∀ v ∈ i.nextCommittee, v.toNat < i.nVals.toNat
+  curLen : i.curCommittee.length < 2 ^ 64
+  nextLen : i.nextCommittee.length < 2 ^ 64
+
+theorem inSubnet_member {size : UInt64} {comm : List UInt64} {v sn : UInt64}
+    (h : inSubnet size comm v sn = true) : v ∈ comm := by
+  unfold inSubnet positionsOf at h
+  rw [List.any_eq_true] at h
+  obtain ⟨p, hp, _⟩ := h
+  have := (List.mem_filter.mp hp).2
+  simp at this
+  exact List.mem_of_getElem? this
+
+theorem syncCommitteeFor_choice {α} (spe epp slot : Nat) (a b : α) :
+    Spec.syncCommitteeFor spe epp slot a b = a ∨ Spec.syncCommitteeFor spe epp slot a b = b := by
+  unfold Spec.syncCommitteeFor; split <;> simp
+
+macro "syncmsg_close" : tactic => `(tactic| (
+  all_goals (try simp only [Spec.syncMsgConds, Spec.currentSlotCond] at *)
+  all_goals (try gossip_norm)
+  all_goals (first | (simp_all; done) | (simp_all; omega))))
+
+theorem syncMsg_accept_iff_all_conditions (i : SyncMsgIn) (h : WFSyncMsg i) :
+    (validateSyncMessage i).verdict = .ACCEPT ↔ allHold (Spec.syncMsgConds i) = true := by
+  obtain ⟨hslot, hcm, hnm, hcl, hnl⟩ := h
+  have hwin := slotSpanOk_iff i.minSlot i.maxSlot i.slot 0
+  have h0 : (0 : UInt64).toNat = 0 := by decide
+  rw [h0] at hwin
+  have hsubC := syncSubnet_eq_spec i.syncSize i.curCommittee i.vindex i.subnet hcl
+  have hsubN := syncSubnet_eq_spec i.syncSize i.nextCommittee i.vindex i.subnet hnl
+  have hmemC : i.nVals.toNat ≤ i.vindex.toNat →
+      (Spec.subnetsForSyncCommittee i.syncSize.toNat i.curCommittee i.vindex).contains i.subnet.toNat = false := by
+    intro hle
+    cases hh : inSubnet i.syncSize i.curCommittee i.vindex i.subnet
+    · rw [← hsubC, hh]
+    · have := hcm i.vindex (inSubnet_member hh); omega
+  have hmemN : i.nVals.toNat ≤ i.vindex.toNat →
+      (Spec.subnetsForSyncCommittee i.syncSize.toNat i.nextCommittee i.vindex).contains i.subnet.toNat = false := by
+    intro hle
+    cases hh : inSubnet i.syncSize i.nextCommittee i.vindex i.subnet
+    · rw [← hsubN, hh]
+    · have := hnm i.vindex (inSubnet_member hh); omega
+  rcases syncCommitteeFor_choice i.spe.toNat i.epp.toNat i.slot.toNat i.curCommittee i.nextCommittee with hc | hc
+  all_goals (
+    have hcomm := syncCommitteeForSlot_eq_spec i.spe i.epp i.slot i.curCommittee i.nextCommittee hslot
+    fun_cases validateSyncMessage i
+    all_goals (try simp only [Spec.syncMsgConds, Spec.currentSlotCond] at *)
+    all_goals (try gossip_norm)
+    all_goals (try simp only [hcomm] at *)
+    all_goals (try simp only [hc] at *)
+    all_goals (first | (simp_all; done) | (simp_all; omega) | (simp_all; omega)))
+
+theorem syncMsg_violated_never_accept (i : SyncMsgIn) (h : WFSyncMsg i) (c : Cond) (hc : c ∈ Spec.syncMsgConds i)
+    (hv : c.holds = false) : (validateSyncMessage i).verdict ≠ .ACCEPT :=
+  never_accept_of_iff (syncMsg_accept_iff_all_conditions i h) hc hv
+
+theorem syncMsg_timing_failures_ignore (i : SyncMsgIn) (h : WFSyncMsg i) :
+    allHold (Spec.syncMsgConds i) = false → onlyTimingFails (Spec.syncMsgConds i) = true →
+    (validateSyncMessage i).verdict = .IGNORE := by
+  obtain ⟨hslot, hcm, hnm, hcl, hnl⟩ := h
+  have hwin := slotSpanOk_iff i.minSlot i.maxSlot i.slot 0
+  have h0 : (0 : UInt64).toNat = 0 := by decide
+  rw [h0] at hwin
+  have hsubC := syncSubnet_eq_spec i.syncSize i.curCommittee i.vindex i.subnet hcl
+  have hsubN := syncSubnet_eq_spec i.syncSize i.nextCommittee i.vindex i.subnet hnl
+  have hmemC : i.nVals.toNat ≤ i.vindex.toNat →
+      (Spec.subnetsForSyncCommittee i.syncSize.toNat i.curCommittee i.vindex).contains i.subnet.toNat = false := by
+    intro hle
+    cases hh : inSubnet i.syncSize i.curCommittee i.vindex i.subnet
+    · rw [← hsubC, hh]
+    · have := hcm i.vindex (inSubnet_member hh); omega
+  have hmemN : i.nVals.toNat ≤ i.vindex.toNat →
+      (Spec.subnetsForSyncCommittee i.syncSize.toNat i.nextCommittee i.vindex).contains i.subnet.toNat = false := by
+    intro hle
+    cases hh : inSubnet i.syncSize i.nextCommittee i.vindex i.subnet
+    · rw [← hsubN, hh]
+    · have := hnm i.vindex (inSubnet_member hh); omega
+  rcases syncCommitteeFor_choice i.spe.toNat i.epp.toNat i.slot.toNat i.curCommittee i.nextCommittee with hc | hc
+  all_goals (
+    have hcomm := syncCommitteeForSlot_eq_spec i.spe i.epp i.slot i.curCommittee i.nextCommittee hslot
+    fun_cases validateSyncMessage i
+    all_goals (try simp only [Spec.syncMsgConds, Spec.currentSlotCond] at *)
+    all_goals (try gossip_norm)
+    all_goals (try simp only [hcomm] at *)
+    all_goals (try simp only [hc] at *)
+    all_goals (first | (simp_all; done) | (simp_all; omega) | (simp_all; omega)))
+
+theorem syncMsg_marks_only_on_accept (i : SyncMsgIn) :
+    (validateSyncMessage i).marks ≠ [] → (validateSyncMessage i).verdict = .ACCEPT := by
+  fun_cases validateSyncMessage i
+  all_goals (simp_all [ign, rej, acc])
+
 end Zrnt.Proofs.C12
